@@ -12,7 +12,7 @@ pub enum Ev {
     N,
     Er,
 }
-fn show(h: &[Ev]) -> String {
+pub fn show(h: &[Ev]) -> String {
     h.iter()
         .map(|e| match e {
             Ev::P(d, v) => format!("P(+{}ns,{:?})", d, v),
@@ -39,7 +39,7 @@ fn ulps(a: f32, b: f32, scale: f64) -> f64 {
 }
 
 /// run both payload variants of one filter in lockstep; per event (update f32, get f32, update Q, get Q)
-fn run_real(cfg: Cfg, h: &[Ev], t0: i64) -> Vec<(u32, Obs, u32, Obs)> {
+pub fn run_real(cfg: Cfg, h: &[Ev], t0: i64) -> Vec<(u32, Obs, u32, Obs)> {
     let inf = rc(Scr::<f32>::new(Ok(None)));
     let inq = rc(Scr::<Quantity>::new(Ok(None)));
     let mut out = Vec::with_capacity(h.len());
@@ -228,7 +228,7 @@ pub fn check_history(cfg: Cfg, h: &[Ev], e: &mut Eng) -> u64 {
     n as u64
 }
 
-fn syms() -> Vec<Ev> {
+pub fn syms() -> Vec<Ev> {
     let mut v = Vec::new();
     for dt in [0i64, 1, S / 2, 3 * S] {
         for x in [-4.0f32, 1.0, 10.0] {
